@@ -6,6 +6,7 @@ mod common;
 mod ledger;
 mod rng;
 mod splitneutral;
+mod summary;
 mod symbase;
 
 use std::io::Write;
@@ -71,6 +72,15 @@ fn main() {
                 let mut cr = r.fork();
                 let mut s = String::new();
                 splitneutral::run_case(&format!("N{}-{}", seed, i), &mut cr, &mut s);
+                w.write_all(s.as_bytes()).unwrap();
+            }
+        }
+        "summary" => {
+            let mut r = rng::Rng::new(seed ^ 0xC10);
+            for i in 0..count {
+                let mut cr = r.fork();
+                let mut s = String::new();
+                summary::run_case(&format!("U{}-{}", seed, i), &mut cr, &mut s);
                 w.write_all(s.as_bytes()).unwrap();
             }
         }
